@@ -256,6 +256,8 @@ def run(ctx):
         desc["index"] = i
         M.drain()
         before = dict(M.COUNTS)
+        own = {k_: (np.array(getattr(kw[k_], "value", kw[k_]), copy=True).tobytes() if not hasattr(kw[k_], "mjd")
+                    else np.array(kw[k_].mjd, copy=True).tobytes()) for k_ in ("t", "rv", "rv_err")}
         try:
             d = RVData(**kw)
         except Exception as e:
@@ -263,6 +265,11 @@ def run(ctx):
             ctx.violation("init-raises", "RVData(...) raised %r on valid input" % (e,), desc)
             continue
         ops = ["init"]
+        now = {k_: (np.array(getattr(kw[k_], "value", kw[k_]), copy=True).tobytes() if not hasattr(kw[k_], "mjd")
+                    else np.array(kw[k_].mjd, copy=True).tobytes()) for k_ in ("t", "rv", "rv_err")}
+        if now != own:
+            ctx.violation("init-modifies-caller-arrays", "RVData(...) changed the arrays it was given: %s"
+                          % [k_ for k_ in own if own[k_] != now[k_]], desc)
         finite_all = (np.all(np.isfinite(d._t_bmjd)) and np.all(np.isfinite(d.rv.value))
                       and np.all(np.isfinite(d.rv_err.value)))
         if finite_all and len(d) > 0:
